@@ -61,7 +61,7 @@ async def check_injection(ctx, case):
     faulty_spec = plant(spec, faults)
     kann_spec = plant(spec, kann)
     rng = random.Random(case["schedule_seed"])
-    world = E.World("c16", rc=asg, fc={k: True for k in POOLS.fc})
+    world = E.World("c16", rc=asg, fc={k: True for k in POOLS.fc}, pkg=case.get("pkg", {}))
     if case.get("shared_lookups"):
         # the user's requirement evaluator shares one pending look-up per key between all nodes of the run: a failure at one node must not
         # take the others down with it
@@ -78,7 +78,7 @@ async def check_injection(ctx, case):
     if out[0] != "ok":
         ctx.violation("validation-aborted", f"{what} {describe(out)[:300]}")
         return
-    ref_out = await TB.validate(kann_spec, E.World("c16", rc=asg, fc={k: True for k in POOLS.fc}), soll, scheduler=None)
+    ref_out = await TB.validate(kann_spec, E.World("c16", rc=asg, fc={k: True for k in POOLS.fc}, pkg=case.get("pkg", {})), soll, scheduler=None)
     ctx.evaluation()
     if ref_out[0] != "ok":
         ctx.violation(f"validation-raises-{type(ref_out[1]).__name__}", f"the AHB with 'Kann' in place of the invalid expressions {describe(ref_out)[:300]}")
@@ -122,6 +122,7 @@ async def run(ctx):
     for i in range(ctx.budget(90, 9_000)):
         gen = T.TreeGen(rng, parts_factory(rng), max_depth=2 if ctx.quick else rng.choice([2, 3]), max_branch=3)
         spec = gen.tree()
+        pkg = T.abbreviate_spec(spec, rng) if rng.random() < 0.3 else {}
         asg = {k: rng.choice("FFU") for k in POOLS.rc}  # no UNKNOWN here: the documented NotImplementedError is C13's business
         soll = rng.random() < 0.5
         sites = [s for s, _h in holders(spec)]
@@ -138,7 +139,7 @@ async def run(ctx):
         else:
             subsets = [[s] for s in rng.sample(sites, 6)] + [rng.sample(sites, rng.randint(2, min(6, len(sites)))) for _ in range(6 if ctx.quick else 14)]
         for subset in subsets:
-            case = {"spec": spec, "asg": asg, "soll": soll, "sites": subset, "exprs": {s: exprs[s] for s in subset}, "schedule_seed": rng.randrange(1 << 30), "shared_lookups": rng.random() < 0.35}
+            case = {"spec": spec, "asg": asg, "soll": soll, "sites": subset, "exprs": {s: exprs[s] for s in subset}, "schedule_seed": rng.randrange(1 << 30), "shared_lookups": rng.random() < 0.35, "pkg": pkg}
             await check_injection(ctx, case)
         if i % 30 == 0:
             ctx.sample({"sites": sites[:10], "invalid_expressions": [T.expr_string(exprs[s]) for s in sites[:4]]}, cls="injection")
